@@ -22,7 +22,7 @@ Record resp := mkResp {
   rs_cc : N;          (* CommandClass() *)
   rs_mc : N;          (* MessageCount() *)
   rs_data : list N;   (* ParamData() *)
-  rs_pid : N }.       (* ParamId() *)
+  rs_hdr : N * N * N * N }.  (* (ParamId(), DestinationUID(), TransactionNumber(), SubDevice()) *)
 
 Record reply := mkReply {
   r_status : N;            (* StatusCode() *)
@@ -178,9 +178,9 @@ Definition combine (a b : resp) : option resp :=
   if MAX_OVERFLOW_SIZE <? n then None
   else if negb (rs_src a =? rs_src b) then None
   else if (rs_cc a =? GET_COMMAND_RESPONSE) && (rs_cc b =? GET_COMMAND_RESPONSE) then
-    Some (mkResp RDM_ACK (rs_src a) GET_COMMAND_RESPONSE (rs_mc b) (rs_data a ++ rs_data b) (rs_pid a))
+    Some (mkResp RDM_ACK (rs_src a) GET_COMMAND_RESPONSE (rs_mc b) (rs_data a ++ rs_data b) (rs_hdr a))
   else if (rs_cc a =? SET_COMMAND_RESPONSE) && (rs_cc b =? SET_COMMAND_RESPONSE) then
-    Some (mkResp RDM_ACK (rs_src a) SET_COMMAND_RESPONSE (rs_mc b) (rs_data a ++ rs_data b) (rs_pid a))
+    Some (mkResp RDM_ACK (rs_src a) SET_COMMAND_RESPONSE (rs_mc b) (rs_data a ++ rs_data b) (rs_hdr a))
   else None.
 
 (* ---- the mock underlying controller ---- *)
@@ -209,7 +209,7 @@ Definition tag (id : N) (r : reply) : reply :=
   | None => r
   | Some rs => mkReply (r_status r)
                  (Some (mkResp (rs_type rs) (rs_src rs) (rs_cc rs) (rs_mc rs)
-                               (match rs_data rs with [] => [] | _ => id :: rs_data rs end) (rs_pid rs)))
+                               (match rs_data rs with [] => [] | _ => id :: rs_data rs end) (rs_hdr rs)))
                  (r_frames r)
   end.
 
